@@ -398,6 +398,11 @@ class InverseMatcher(WrappingMatcher):
 
             break
 
+        # If the child ran out while we were stepping over its postings, the
+        # current id has not been checked against missing() yet
+        while self._id < self.limit and missing(self._id):
+            self._id += 1
+
     def id(self):
         return self._id
 
